@@ -5,7 +5,8 @@
 //	<id> <op> <args...> | <go result> | <features>
 //
 // Step-level ops (add, size, wm) exercise writeBatch / partitionWriter through
-// the hooks of /repo/verif_export_writer.go; e2e runs the real kafka.Writer on
+// the hooks of /repo/verif_export_writer.go; prr and pr drive the response
+// mapping of (*kafka.Client).Produce through a scripted RoundTripper; e2e runs the real kafka.Writer on
 // the fake cluster of kverif/fakert and prints the globally sequenced history;
 // f3 replays the Close / WriteMessages race.  All numbers are lowercase hex.
 package main
@@ -19,6 +20,7 @@ import (
 	"fmt"
 	"io"
 	"math/rand"
+	"net"
 	"os"
 	"sort"
 	"strings"
@@ -26,6 +28,7 @@ import (
 	"time"
 
 	kafka "github.com/segmentio/kafka-go"
+	"github.com/segmentio/kafka-go/protocol/produce"
 	"kverif/fakert"
 	"kverif/kvfmt"
 )
@@ -272,14 +275,17 @@ type plan struct {
 	feat         map[string]bool
 }
 
-var kafkaCodes = []int{1, 2, 3, 5, 6, 7, 10, 13, 17, 19, 20, 29, 87}
+// Kafka codes are kept in the encoded form of fakert.Enc (negative codes as
+// 65536+c); none of them may fall into the transport range 1001..1099.
+var boundaryCodes = []int{fakert.Enc(-1), fakert.Enc(-2), fakert.Enc(-32768), 1, 127, 128, 255, 256, 32767}
+var kafkaCodes = append([]int{1, 2, 3, 5, 6, 7, 10, 13, 17, 19, 20, 29, 87}, boundaryCodes...)
 var netCodes = []int{fakert.CodeUnexpectedEOF, fakert.CodeConnReset, fakert.CodePipe, fakert.CodeConnRefused,
 	fakert.CodeDeadline, fakert.CodeBoom, fakert.CodeTemp}
 
 // seenErr is the error as (*partitionWriter).writeBatch sees it.
 func seenErr(code int) error {
-	if code < 1000 {
-		return kafka.Error(code)
+	if !fakert.IsTransport(code) {
+		return fakert.ErrOf(code) // kafka.Error of the decoded code
 	}
 	return fmt.Errorf("kafka.(*Client).Produce: %w", fakert.ErrOf(code))
 }
@@ -330,7 +336,11 @@ func genReaction(r *rand.Rand, forceFail bool) fakert.Reaction {
 	re.Kind = fakert.Kind(k)
 	switch re.Kind {
 	case fakert.RejectedCode:
-		re.Code = kafkaCodes[r.Intn(len(kafkaCodes))]
+		if r.Intn(5) < 2 { // boundary codes with probability >= 1/3 (kafkaCodes holds them too)
+			re.Code = boundaryCodes[r.Intn(len(boundaryCodes))]
+		} else {
+			re.Code = kafkaCodes[r.Intn(len(kafkaCodes))]
+		}
 	case fakert.AppliedLost, fakert.NotApplied:
 		re.Code = netCodes[r.Intn(len(netCodes))]
 	}
@@ -1000,9 +1010,9 @@ func (s *scRun) observedFeatures(journal []fakert.Attempt, events []string) {
 			} else {
 				f["net-permanent"] = true
 			}
-		case a.Seen < 1000 && r:
+		case !fakert.IsTransport(a.Seen) && r:
 			f["code-retriable"] = true
-		case a.Seen < 1000:
+		case !fakert.IsTransport(a.Seen):
 			f["code-permanent"] = true
 		case r:
 			f["net-retriable"] = true
@@ -1025,6 +1035,270 @@ func (s *scRun) observedFeatures(journal []fakert.Attempt, events []string) {
 	if _, fired := s.fake.MetaState(); fired {
 		f["meta-fault"] = true
 	}
+}
+
+// ---------------------------------------------------------------------------
+// e2e: guaranteed boundary-code coverage (independent of -n)
+
+// boundaryPlans builds, for each boundary code x {sync, async} x position of
+// the rejection (first attempt / after one retry / last of three attempts), a
+// deterministic one-caller, one-partition scenario: a call of 3 messages
+// (BatchSize 3) hitting the script, a second call of 1 message that is
+// acknowledged, then Close.
+func boundaryPlans() []*plan {
+	reset := fakert.Reaction{Kind: fakert.NotApplied, Code: fakert.CodeConnReset}
+	pipe := fakert.Reaction{Kind: fakert.AppliedLost, Code: fakert.CodePipe}
+	var plans []*plan
+	for _, c := range []int{-1, 1, 127, 128, 255, 32767, -32768} {
+		rej := fakert.Reaction{Kind: fakert.RejectedCode, Code: fakert.Enc(c)}
+		for _, async := range []bool{false, true} {
+			for _, pos := range []string{"first", "retry", "last"} {
+				p := &plan{feat: map[string]bool{}, faults: map[fakert.TP][]fakert.Reaction{}}
+				p.topics = []int{1}
+				p.batchSize = 3
+				p.batchBytes = 1000
+				p.maxAttempts = 3
+				p.async = async
+				p.wtopic = 0
+				p.det = true
+				p.batchTimeout = 200 * time.Millisecond
+				if async {
+					p.batchTimeout = time.Hour
+				}
+				p.backoffMin = time.Millisecond
+				p.backoffMax = time.Millisecond
+				var script []fakert.Reaction
+				switch pos {
+				case "first":
+					script = []fakert.Reaction{rej}
+				case "retry":
+					script = []fakert.Reaction{reset, rej}
+				default:
+					script = []fakert.Reaction{reset, pipe, rej}
+				}
+				p.faults[fakert.TP{Topic: "t0", Partition: 0}] = script
+				mk := func(id uint64) planMsg { return planMsg{id: id, topic: -1, size: 40, part: 0} }
+				p.callers = [][]planCall{{
+					{msgs: []planMsg{mk(1), mk(2), mk(3)}},
+					{msgs: []planMsg{mk(4)}},
+				}}
+				p.planFeatures()
+				p.feat["boundary-code"] = true
+				p.feat["pos="+pos] = true
+				plans = append(plans, p)
+			}
+		}
+	}
+	return plans
+}
+
+// ---------------------------------------------------------------------------
+// step level: (*kafka.Client).Produce response mapping (ops prr, pr)
+
+// prRT is a scripted RoundTripper answering every request with one produce
+// response.
+type prRT struct {
+	throttle int32
+	part     produce.ResponsePartition
+}
+
+func (rt *prRT) RoundTrip(ctx context.Context, addr net.Addr, req kafka.Request) (kafka.Response, error) {
+	return &produce.Response{
+		ThrottleTimeMs: rt.throttle,
+		Topics:         []produce.ResponseTopic{{Topic: "t0", Partitions: []produce.ResponsePartition{rt.part}}},
+	}, nil
+}
+
+func produceVia(rt *prRT) (*kafka.ProduceResponse, error) {
+	c := &kafka.Client{Addr: kafka.TCP("fake:9092"), Transport: rt}
+	return c.Produce(context.Background(), &kafka.ProduceRequest{
+		Topic:        "t0",
+		Partition:    0,
+		RequiredAcks: kafka.RequireAll,
+		Records:      kafka.NewRecordReader(kafka.Record{Value: kafka.NewBytes([]byte("x"))}),
+	})
+}
+
+// prErr renders the error part of a Produce outcome: "-" for success, the
+// signed Kafka code of res.Error, "x" for anything else.
+func prErr(res *kafka.ProduceResponse, err error) string {
+	if err != nil || res == nil {
+		return "x"
+	}
+	if res.Error == nil {
+		return "-"
+	}
+	var ke kafka.Error
+	if errors.As(res.Error, &ke) {
+		return kvfmt.I(int64(ke))
+	}
+	return "x"
+}
+
+// genPRR covers all 65536 partition error codes in chunks of 256.
+func genPRR() []line {
+	var lines []line
+	for lo := 0; lo < 65536; lo += 256 {
+		hi := lo + 255
+		items := make([]string, 0, 256)
+		for u := lo; u <= hi; u++ {
+			rt := &prRT{part: produce.ResponsePartition{Partition: 0, ErrorCode: int16(uint16(u))}}
+			items = append(items, prErr(produceVia(rt)))
+		}
+		lines = append(lines, line{"prr", fmt.Sprintf("%x %x", lo, hi), strings.Join(items, ","), "all-codes"})
+	}
+	return lines
+}
+
+func pickI64(r *rand.Rand) int64 {
+	switch r.Intn(12) {
+	case 0:
+		return 0
+	case 1:
+		return -1
+	case 2:
+		return 1
+	case 3:
+		return 1 << 32
+	case 4:
+		return 1<<32 + int64(r.Intn(100000))
+	case 5:
+		return -(1 << 32) - int64(r.Intn(100000))
+	case 6:
+		return 1<<63 - 1
+	case 7:
+		return -1 << 63
+	case 8:
+		return r.Int63()
+	case 9:
+		return -r.Int63()
+	default:
+		return int64(r.Intn(100000))
+	}
+}
+
+func genPR(r *rand.Rand) line {
+	feat := map[string]bool{}
+	var code int16
+	switch r.Intn(6) {
+	case 0:
+		code = 0
+	case 1:
+		code = int16(fakert.Dec(boundaryCodes[r.Intn(len(boundaryCodes))]))
+	case 2:
+		code = -int16(1 + r.Intn(200))
+	case 3:
+		code = int16(1 + r.Intn(120))
+	default:
+		code = int16(uint16(r.Intn(65536)))
+	}
+	switch {
+	case code < 0:
+		feat["code-neg"] = true
+	case code == 0:
+		feat["code-zero"] = true
+	default:
+		feat["code-pos"] = true
+	}
+	var th int32
+	switch r.Intn(7) {
+	case 0:
+		th = 0
+	case 1:
+		th = 1
+	case 2:
+		th = -1
+	case 3:
+		th = 1<<31 - 1
+	case 4:
+		th = -1 << 31
+	default:
+		th = int32(r.Intn(100000))
+	}
+	var lat int64
+	switch r.Intn(12) {
+	case 0:
+		lat = 0
+	case 1:
+		lat = -1
+	case 2:
+		lat = 1
+	case 3:
+		lat = 999
+	case 4:
+		lat = 1000
+	case 5:
+		lat = 1001
+	case 6:
+		lat = 1000000000000
+	case 7:
+		lat = 1000000000000 + int64(r.Intn(100000000))
+	case 8:
+		lat = -int64(r.Intn(1000000)) - 2
+	case 9:
+		lat = 1<<32 + int64(r.Intn(5000))
+	default:
+		lat = int64(r.Intn(5000))
+	}
+	if lat <= 0 {
+		feat["lat-nonpos"] = true
+	}
+	bo, lso := pickI64(r), pickI64(r)
+	part := produce.ResponsePartition{Partition: 0, ErrorCode: code, BaseOffset: bo, LogAppendTime: lat, LogStartOffset: lso}
+	hasmsg := r.Intn(3) == 0
+	if hasmsg {
+		part.ErrorMessage = "boom"
+		feat["msg"] = true
+	}
+	recs := "."
+	if r.Intn(3) == 0 {
+		feat["recerrs"] = true
+		seen := map[int32]bool{}
+		var l []string
+		for i, n := 0, 1+r.Intn(4); i < n; i++ {
+			var idx int32
+			switch r.Intn(6) {
+			case 0:
+				idx = -1 - int32(r.Intn(3))
+			case 1:
+				idx = 1<<31 - 1 - int32(r.Intn(3))
+			default:
+				idx = int32(r.Intn(10))
+			}
+			if seen[idx] { // distinct indexes only: the result is a map
+				continue
+			}
+			seen[idx] = true
+			part.RecordErrors = append(part.RecordErrors, produce.ResponseError{BatchIndex: idx, BatchIndexErrorMessage: "r"})
+			l = append(l, kvfmt.I(int64(idx)))
+		}
+		recs = strings.Join(l, ",")
+	}
+	args := fmt.Sprintf("%s %s %s %s %s %s %s", kvfmt.I(int64(code)), kvfmt.I(int64(th)), kvfmt.I(bo), kvfmt.I(lat), kvfmt.I(lso), kvfmt.Bool(hasmsg), recs)
+	res, err := produceVia(&prRT{throttle: th, part: part})
+	e := prErr(res, err)
+	if err != nil || res == nil {
+		return line{"pr", args, "x", kvfmt.Set(feat)}
+	}
+	ls := "-"
+	if !res.LogAppendTime.IsZero() {
+		ls = kvfmt.I(res.LogAppendTime.UnixMilli())
+	}
+	keys := make([]int, 0, len(res.RecordErrors))
+	for k := range res.RecordErrors {
+		keys = append(keys, k)
+	}
+	sort.Ints(keys)
+	ks := "."
+	if len(keys) > 0 {
+		l := make([]string, len(keys))
+		for i, k := range keys {
+			l[i] = kvfmt.I(int64(k))
+		}
+		ks = strings.Join(l, ",")
+	}
+	out := fmt.Sprintf("%s:%s:%s:%s:%s:%s", e, kvfmt.I(int64(res.Throttle/time.Millisecond)), kvfmt.I(res.BaseOffset), ls, kvfmt.I(res.LogStartOffset), ks)
+	return line{"pr", args, out, kvfmt.Set(feat)}
 }
 
 // ---------------------------------------------------------------------------
@@ -1138,12 +1412,19 @@ func main() {
 		lines = append(lines, genWM(r))
 	}
 
-	// e2e: all plans come from the one PRNG first, then run concurrently.
+	lines = append(lines, genPRR()...)
+	for i := 0; i < 300; i++ {
+		lines = append(lines, genPR(r))
+	}
+
+	// e2e: all plans come from the one PRNG first, then run concurrently; the
+	// fixed boundary-code scenarios follow the generated ones.
 	plans := make([]*plan, *count)
 	for i := range plans {
 		plans[i] = genPlan(r)
 		plans[i].planFeatures()
 	}
+	plans = append(plans, boundaryPlans()...)
 	results := make([]line, len(plans))
 	sem := make(chan struct{}, *jobs)
 	var wg sync.WaitGroup
